@@ -6,23 +6,9 @@
    regrouping does not panic on 5-bit symbols (a-c01's BitsProofs); data[0] is covered by the
    21/33 length test; serializedPubKey[0] by the 66/130 length test; CheckDecode does not panic. *)
 From BU Require Import Lib.Bytes Lib.PolyMod Gen.Xbchutil Gen.Nets Base58.Base58 CashAddr.CashAddr
-  Address.Bits Address.BitsProofs Address.Address Address.CashProofs
+  Address.Bits Address.BitsProofs Address.Address
   NoPanic.Slices NoPanic.CashAddrNP NoPanic.Base58NP.
 From Coq Require Import ZifyBool ZifyN ZifyNat.
-
-(* the payload of an accepted CashAddr string consists of 5-bit symbols *)
-Lemma decode_cashaddr_symbols s p d : decode_cashaddr s = Ok (p, d) -> Forall (fun x => x < 32) d.
-Proof.
-  unfold decode_cashaddr. intros H.
-  destruct (scan s 0 false false (D 0)) as [[[l u] ps]| |]; cbn [rbind] in H; try discriminate.
-  destruct (ps =? D 12); [discriminate|]. destruct (u && l); [discriminate|].
-  destruct (to_values _) as [values| |] eqn:Ev; cbn [rbind] in H; try discriminate.
-  destruct (_ <? D 19); [discriminate|]. destruct (negb _); [discriminate|].
-  injection H as _ <-.
-  apply to_values_props in Ev. destruct Ev as (Hv & _).
-  rewrite <- (firstn_skipn (length values - N.to_nat (D 20)) values) in Hv.
-  apply Forall_app in Hv. exact (proj1 Hv).
-Qed.
 
 Lemma lits_cd : CD 0 = 5 /\ CD 1 = 8 /\ CD 2 = 1 /\ CD 3 = 1 /\ CD 4 = 0.
 Proof. vm_compute. repeat split; reflexivity. Qed.
